@@ -138,8 +138,8 @@ PLANS['C17'] = {
 
 PLANS['C16'] = {
     'level': 'model_checking', 'tv_spec': 'TV_API',
-    'run': api_runner({'quick': [('limits', 12, 12, 12), ('limitsbig', 4, 20, 4)],
-                       'thorough': [('limits', 150, 12, 16), ('limitsbig', 40, 30, 16)]}),
+    'run': api_runner({'quick': [('limits', 12, 12, 10), ('limitsbig', 4, 20, 2), ('limitsq', 6, 8, 4)],
+                       'thorough': [('limits', 150, 12, 16), ('limitsbig', 40, 30, 16), ('limitsq', 60, 10, 16)]}),
 }
 
 PLANS['C09'] = {
